@@ -35,7 +35,8 @@ MANIFEST = {
     'technique': ('dominance/ordering over the policy CFGs, def-use from the trial loader to '
                   'Designer.update, write-set restriction on the incorporated-id field, '
                   'argument-to-field pairing of the trial filters'
-                  '; presence tests of optional filters (`is None` vs truthiness); completeness of ListTrials (pagination vs callers); shared C09.R3'),
+                  '; presence tests of optional filters (`is None` vs truthiness); completeness of ListTrials (pagination vs callers); shared C09.R3'
+                  '; finite-model truth table of TrialFilter.__call__ (loop-free concrete interpreter, same-class helpers followed); per-request policy provenance in the Pythia servicer'),
     'level_text': (
         'Static: the order load -> update -> suggest -> dump, the identity of what is loaded and '
         'what is passed to update(), the single place where the incorporated-id set grows (by '
